@@ -4,7 +4,7 @@
 //!     → `serde_json::to_string(&serde_json::from_str::<Value>(text)?)` (what the real parser keeps of
 //!       the text: member order is the `Map`'s order), or `err`.
 //! `{"kind":"gen","schema":"<document text>","settings":{..}}`
-//!     → `ok <fnv64 of to_stream().to_string()> <fnv64 of a second to_stream()> <bytes>`,
+//!     → `ok <fnv64 of to_stream().to_string()> <fnv64 of a second to_stream()> <bytes> <fnv64 after a call that defines nothing>`,
 //!       `err <kind>`, `panic`, or `unsupported` (the text is not a `RootSchema`).
 //!
 //! settings: struct_builder (bool), derives ([string]), map_type (string), type_mod (string),
@@ -118,7 +118,15 @@ fn handle(line: &str) -> String {
                 Ok(_) => {
                     let a = ts.to_stream().to_string();
                     let b = ts.to_stream().to_string();
-                    format!("ok {:016x} {:016x} {}", fnv64(a.as_bytes()), fnv64(b.as_bytes()), a.len())
+                    // a later call that defines nothing (the schema `true`): the code for the document is still the same
+                    let c = match std::panic::catch_unwind(std::panic::AssertUnwindSafe(|| {
+                        let _ = ts.add_type(&schemars::schema::Schema::Bool(true));
+                        ts.to_stream().to_string()
+                    })) {
+                        Ok(c) => format!("{:016x}", fnv64(c.as_bytes())),
+                        Err(_) => "panic".to_string(),
+                    };
+                    format!("ok {:016x} {:016x} {} {}", fnv64(a.as_bytes()), fnv64(b.as_bytes()), a.len(), c)
                 }
             }
         }
